@@ -115,6 +115,7 @@ func genHistory(t *rapid.T, withNames, withTableOps bool) history {
 				op.IP = rapid.SampledFrom([]int{i4A, i4B, i4C}).Draw(t, "ip")
 			}
 			op.NSrc, op.Name = rapid.IntRange(0, 4).Draw(t, "nsrc"), rapid.SampledFrom(names).Draw(t, "name")
+			op.Exp = rapid.SampledFrom([]int{0, 0, 1, 2, 3}).Draw(t, "exp")
 		case "adv":
 			op.D = rapid.IntRange(0, 5).Draw(t, "d")
 		case "offer":
